@@ -1,6 +1,7 @@
 import ZnVerif.Properties.Bridges
 import ZnVerif.Properties.C06
 import ZnVerif.Properties.C06Eval
+import ZnVerif.Properties.C09Sites
 open ZnVerif.Properties.C06
 #print axioms scope_refines_stack_from
 #print axioms scope_refines_stack
@@ -58,3 +59,8 @@ open ZnVerif.Properties.C06
 #print axioms ZnVerif.Properties.Bridges.vm_scope_bridge_declareExt
 #print axioms ZnVerif.Properties.Bridges.vm_scope_bridge_set
 #print axioms ZnVerif.Properties.Bridges.vm_scope_bridge_block
+
+-- regenerated tie: where the Go evaluator pushes / pops frames, opens / closes scopes, stamps lines, reads / writes the return slot
+-- (Generated/FrameSites.lean, extracted from $ZN_REPO on every run) = the sites the models mirror (Properties/C09Sites.lean)
+#print axioms ZnVerif.Properties.C09Sites.frame_sites_all_modelled
+#print axioms ZnVerif.Properties.C09Sites.frame_primitives_all_modelled
